@@ -14,6 +14,8 @@ import (
 	"encoding/hex"
 	"fmt"
 	"net"
+	"reflect"
+	"sort"
 	"strings"
 	"sync"
 	"time"
@@ -24,6 +26,7 @@ import (
 	"seata.apache.org/seata-go/pkg/datasource/sql/undo"
 	"seata.apache.org/seata-go/pkg/discovery"
 	"seata.apache.org/seata-go/pkg/protocol/branch"
+	"seata.apache.org/seata-go/pkg/protocol/codec"
 	"seata.apache.org/seata-go/pkg/protocol/message"
 	rconfig "seata.apache.org/seata-go/pkg/remoting/config"
 	"seata.apache.org/seata-go/pkg/remoting/getty"
@@ -345,6 +348,7 @@ type CEvent struct {
 	K      string   `json:"k"` // resource | lost | reconnect
 	Res    string   `json:"res,omitempty"`
 	BT     int      `json:"bt"` // resource: branch type (0 AT, 1 TCC, 3 XA)
+	SendFail bool   `json:"send_fail,omitempty"` // resource: the write of its RegisterRMRequest fails
 	ByPeer bool     `json:"by_peer,omitempty"` // lost: the session was already closed when the handler released it
 	Via    string   `json:"via,omitempty"`     // lost: OnClose | OnError
 	Addr   string   `json:"addr"`              // address of the session the event is about
@@ -531,7 +535,7 @@ func runClientHistory(r *hutil.Rng, script []string) CHistory {
 	}
 	for _, k := range script {
 		switch {
-		case k == "resource":
+		case strings.HasPrefix(k, "resource"):
 			if !connected {
 				continue // registering while disconnected waits 60 s for a session (C14/C15 territory)
 			}
@@ -540,6 +544,14 @@ func runClientHistory(r *hutil.Rng, script []string) CHistory {
 			// the data-source resource managers (a resource without a database behind it: the
 			// managers cache and announce any rm.Resource)
 			bt := []branch.BranchType{branch.BranchTypeTCC, branch.BranchTypeTCC, branch.BranchTypeAT, branch.BranchTypeXA}[r.Intn(4)]
+			switch { // a script may name the resource manager
+			case strings.HasSuffix(k, ":tcc"):
+				bt = branch.BranchTypeTCC
+			case strings.HasSuffix(k, ":at"):
+				bt = branch.BranchTypeAT
+			case strings.HasSuffix(k, ":xa"):
+				bt = branch.BranchTypeXA
+			}
 			name := fmt.Sprintf("verifRes%d_%d", resCounter, r.Intn(1000))
 			if bt != branch.BranchTypeTCC {
 				name = fmt.Sprintf("jdbc:mysql://db%d:3306/s%d", r.Intn(1000), resCounter)
@@ -556,16 +568,31 @@ func runClientHistory(r *hutil.Rng, script []string) CHistory {
 			} else {
 				res = &plainResource{id: name, bt: bt}
 			}
+			sendFails := strings.HasPrefix(k, "resource:fail")
+			if sendFails {
+				cur.mu.Lock()
+				cur.failNext = 1 // the RegisterRMRequest cannot be written (timeout, full buffer); the session stays open
+				cur.mu.Unlock()
+			}
 			class, detail := hutil.Guard(12*time.Second, func() error {
 				return rm.GetRmCacheInstance().GetResourceManager(bt).RegisterResource(res)
 			})
-			ev := CEvent{K: "resource", Res: name, BT: int(bt), Sess: cur.id, Addr: cur.addr}
-			if class != hutil.OutOK {
+			ev := CEvent{K: "resource", Res: name, BT: int(bt), Sess: cur.id, Addr: cur.addr, SendFail: sendFails}
+			switch {
+			case class == hutil.OutPanic || class == hutil.OutDiverged:
 				ev.Sent = []string{"<<" + class + ": " + firstLine(detail) + ">>"}
 				if h.Oracle == "" {
 					h.Oracle, h.BadAt = "RegisterResource "+class+": "+firstLine(detail), len(h.Events)
 				}
-			} else {
+			case class == hutil.OutErr && !sendFails:
+				ev.Sent = []string{"<<error: " + firstLine(detail) + ">>"}
+				if h.Oracle == "" {
+					h.Oracle, h.BadAt = "RegisterResource failed although the session accepted the write: "+firstLine(detail), len(h.Events)
+				}
+			default:
+				// the application has registered the resource, whatever became of the first
+				// announcement (an error is returned to it when the write failed): from now on
+				// every new session has to be told
 				ev.Sent = sentOf(cur, before)
 				registered = append(registered, name)
 				typesHeld[bt] = true
@@ -668,7 +695,10 @@ func genScript(r *hutil.Rng, i int) []string {
 			"lost:peer", "reconnect:same:fail", "reconnect:same",
 			"lost:open", "reconnect:other:fail", "reconnect:same:fail", "reconnect:same"}
 	case 1:
-		return []string{"resource", "lost:peer", "reconnect:same"} // one resource, one reconnect
+		return []string{"resource", "lost:peer", "reconnect:same", // one resource, one reconnect
+			// a first announcement that fails, then a reconnect: once per resource manager
+			"resource:fail:tcc", "lost:open", "reconnect:same",
+			"resource:fail:at", "resource:fail:xa", "resource:tcc", "lost:peer", "reconnect:other"}
 	case 2:
 		return []string{"resource", "resource", "lost:open", "reconnect:same", "lost:peer", "reconnect:other"}
 	case 3:
@@ -680,8 +710,10 @@ func genScript(r *hutil.Rng, i int) []string {
 	rec := []string{"reconnect:same", "reconnect:same", "reconnect:other", "reconnect:same:fail"}
 	for j := 0; j < n; j++ {
 		switch r.Intn(5) {
-		case 0, 1:
+		case 0:
 			s = append(s, "resource")
+		case 1:
+			s = append(s, []string{"resource", "resource:fail"}[r.Intn(2)])
 		default:
 			s = append(s, lost[r.Intn(2)], rec[r.Intn(4)], "reconnect:same")
 		}
@@ -695,26 +727,70 @@ func genScript(r *hutil.Rng, i int) []string {
 // sessions registered through the real OnOpen. Recorded as a selection history (same shape
 // as the direct ones) so that the same model and the same oracle judge it.
 
-func xidRequest(r *hutil.Rng, xid string) (interface{}, string) {
-	switch r.Intn(6) {
-	case 0:
-		return message.GlobalCommitRequest{AbstractGlobalEndRequest: message.AbstractGlobalEndRequest{Xid: xid}}, "GlobalCommitRequest"
-	case 1:
-		return message.GlobalRollbackRequest{AbstractGlobalEndRequest: message.AbstractGlobalEndRequest{Xid: xid}}, "GlobalRollbackRequest"
-	case 2:
-		return message.BranchRegisterRequest{Xid: xid, ResourceId: "res", LockKey: "t:1"}, "BranchRegisterRequest"
-	case 3:
-		return message.BranchReportRequest{Xid: xid, BranchId: 7, ResourceId: "res"}, "BranchReportRequest"
-	case 4:
-		return message.GlobalStatusRequest{AbstractGlobalEndRequest: message.AbstractGlobalEndRequest{Xid: xid}}, "GlobalStatusRequest"
-	default:
-		return message.GlobalReportRequest{AbstractGlobalEndRequest: message.AbstractGlobalEndRequest{Xid: xid}}, "GlobalReportRequest"
+// xidMessageTypes enumerates, through the codec registry (every registered codec decodes
+// an empty body into a zero value of its message type), the message types that carry an
+// `Xid string` field and that the CLIENT sends: requests, except those the coordinator
+// sends to the client (branch commit / rollback, undo-log delete), and the client's
+// replies to those (branch commit / rollback responses).
+func xidMessageTypes() []reflect.Type {
+	var out []reflect.Type
+	seen := map[reflect.Type]bool{}
+	for code := 0; code < 256; code++ {
+		c := codec.GetCodecManager().GetCodec(codec.CodecTypeSeata, message.MessageType(code))
+		if c == nil {
+			continue
+		}
+		var v interface{}
+		func() {
+			defer func() { recover() }()
+			v = c.Decode(make([]byte, 64))
+		}()
+		if v == nil {
+			continue
+		}
+		t := reflect.TypeOf(v)
+		if t.Kind() == reflect.Ptr {
+			t = t.Elem()
+		}
+		if t.Kind() != reflect.Struct || seen[t] {
+			continue
+		}
+		f, ok := t.FieldByName("Xid")
+		if !ok || f.Type.Kind() != reflect.String {
+			continue
+		}
+		n := t.Name()
+		fromCoordinator := n == "BranchCommitRequest" || n == "BranchRollbackRequest" || n == "UndoLogDeleteRequest"
+		clientSends := (strings.HasSuffix(n, "Request") && !fromCoordinator) || n == "BranchCommitResponse" || n == "BranchRollbackResponse"
+		if clientSends {
+			seen[t] = true
+			out = append(out, t)
+		}
 	}
+	sort.Slice(out, func(i, j int) bool { return out[i].Name() < out[j].Name() })
+	return out
+}
+
+func xidRequest(t reflect.Type, xid string) (interface{}, string) {
+	v := reflect.New(t).Elem()
+	v.FieldByName("Xid").SetString(xid)
+	return v.Interface(), t.Name()
 }
 
 func runIntegrated(r *hutil.Rng, nsend int) History {
 	initClient()
 	h := History{Hash: map[string]uint32{}, BadAt: -1, Feat: []string{"integrated"}, Index: -1}
+	types := xidMessageTypes()
+	for _, t := range types {
+		h.Feat = append(h.Feat, "xid-type:"+t.Name())
+	}
+	if len(types) == 0 {
+		h.Oracle = "no message type with an Xid field found through the codec registry"
+		return h
+	}
+	if nsend < 3*len(types) {
+		nsend = 3 * len(types)
+	}
 	handler := getty.GetGettyClientHandlerInstance()
 	addrs := []string{"10.0.0.1:8091", "10.0.0.1:809", "10.0.0.2:8091", "10.0.0.10:8091"}
 	var reg []*regEntry
@@ -755,7 +831,7 @@ func runIntegrated(r *hutil.Rng, nsend int) History {
 		if r.Chance(1, 8) {
 			xid = "10.9.9.9:8091:" + fmt.Sprint(r.Intn(1000)) // no session there: any open one
 		}
-		req, name := xidRequest(r, xid)
+		req, name := xidRequest(types[i%len(types)], xid) // every type in turn
 		before := make([]int, len(reg))
 		for j, e := range reg {
 			before[j] = e.s.nWrites()
